@@ -32,6 +32,11 @@ def ev_coq(e):
     if k == 'apply':
         a = list(a) + [None] * (4 - len(a))
         return '(EApply %s %s %s %s)' % (copt(a[0]), copt(a[1]), copt(a[2]), copt(a[3], cbool))
+    if k == 'applyq':
+        a = list(a) + [None] * (4 - len(a))
+        return '(EApplyQ %s %s %s %s)' % (copt(a[0]), copt(a[1]), copt(a[2]), copt(a[3], cbool))
+    if k == 'apply_unsendable':
+        return '(EApplyUnsendable %s)' % copt(a[0] if a else None, cbool)
     if k == 'map':
         return '(EMap %s %s)' % (cz(a[0]), cz(a[1]))
     if k == 'imap':
@@ -160,7 +165,7 @@ def obs_coq(o):
         clist(enc_ret(o)),
         clist([enc_job(j) for j in o['jobs']], clist),
         clist([[w[0], w[1], int(w[2]), int(w[3]), oz(w[4])] for w in o['workers']], clist),
-        clist([o['nprocs'], o['sem'][0], o['sem'][1], o['R'], o['state'], int(o['now'])]),
+        clist([o['nprocs'], o['sem'][0], o['sem'][1], o['R'], o['state'], int(o['now']), o['ncache']]),
         clist(o['sigs'], lambda s: '(%s, %s)' % (cz(s[0]), cz(s[1]))))
 
 
@@ -263,8 +268,8 @@ def job_params(case, obs):
     cfg = case['cfg']
     out = []
     for e, o in zip(case['events'], obs):
-        if e[0] in ('apply', 'map', 'imap', 'imapu') and o['ret'] is None and not o['exc']:
-            if e[0] == 'apply':
+        if e[0] in ('apply', 'applyq', 'map', 'imap', 'imapu') and o['ret'] is None and not o['exc']:
+            if e[0] in ('apply', 'applyq'):
                 a = list(e[1:]) + [None] * 4
                 out.append((a[0] or cfg.get('soft'), a[1] or cfg.get('hard'), a[2] or cfg.get('lost') or 10))
             elif e[0] == 'map':
@@ -407,8 +412,8 @@ def mon_C05_jobs(case, obs):
     cfg = case['cfg']
     limits = []
     for e, o in zip(case['events'], obs):
-        if e[0] in ('apply', 'map', 'imap', 'imapu') and o['ret'] is None and not o['exc']:
-            if e[0] == 'apply':
+        if e[0] in ('apply', 'applyq', 'map', 'imap', 'imapu') and o['ret'] is None and not o['exc']:
+            if e[0] in ('apply', 'applyq'):
                 a = list(e[1:]) + [None] * 4
                 limits.append((a[0] or cfg.get('soft'), a[1] or cfg.get('hard')))
             else:
@@ -558,6 +563,21 @@ def mon_C10(case, obs):
                 out.append(('C10:slot-not-given-back-for-reaped-worker',
                             'the supervision pass at event %d reaped %d worker(s) %s but the semaphore went from %d to %d (bound %d)'
                             % (n, len(gone), sorted(gone), obs[n - 1]['sem'][0], v, b)))
+        if e[0] == 'apply_unsendable' and n and (v != obs[n - 1]['sem'][0] or o['ncache'] != obs[n - 1]['ncache']):
+            out.append(('C10:slot-leaked-by-failed-send',
+                        'apply_async whose write to the pipe raised (event %d, it %s) left %d -> %d free slots and %d -> %d cache entries'
+                        % (n, 'raised ' + o['exc'] if o['exc'] else 'returned %s' % o['ret'], obs[n - 1]['sem'][0], v,
+                           obs[n - 1]['ncache'], o['ncache'])))
+        if e[0] == 'feed' and n and not o['exc']:
+            failed = [k for k, j in _apply_jobs(o) if j['ready'] and j['val'] and j['val'][0] == 'putfailed'
+                      and k < len(obs[n - 1]['jobs']) and not obs[n - 1]['jobs'][k]['ready']]
+            if failed and v < min(b, obs[n - 1]['sem'][0] + len(failed)):
+                out.append(('C10:slot-leaked-by-failed-send',
+                            'the task(s) of apply job(s) %s could not be sent at event %d; free slots went %d -> %d (bound %d)'
+                            % (failed, n, obs[n - 1]['sem'][0], v, b)))
+            stuck = [k for k in failed if o['jobs'][k]['incache']]
+            if stuck:
+                out.append(('C10:unsent-job-stays-in-cache', 'apply job(s) %s failed because the task could not be sent and are still in the cache (nobody will ever acknowledge them)' % stuck))
         if v < 0 or v > b:
             out.append(('C10:semaphore-out-of-bounds', 'value %d bound %d after event %d %s' % (v, b, n, e)))
         if b != o['nprocs']:
@@ -655,8 +675,8 @@ def mon_known_C10(case, obs):
     for n, (e, o) in enumerate(zip(case['events'], obs)):
         if e[0] in ('exit', 'terminate_job', 'shrink', 'death', 'close', 'discard') or any(s[1] in (15, 9) for s in o['sigs']):
             disturbed = True
-        if e[0] in ('apply', 'map', 'imap', 'imapu') and o['ret'] is None and not o['exc']:
-            if e[0] == 'apply':
+        if e[0] in ('apply', 'applyq', 'map', 'imap', 'imapu') and o['ret'] is None and not o['exc']:
+            if e[0] in ('apply', 'applyq'):
                 a = list(e[1:]) + [None] * 4
                 wait = case['cfg'].get('putlocks', False) if a[3] is None else a[3]
                 if wait:
@@ -841,6 +861,8 @@ def mon_C01_feed(case, obs):
     out = []
     pending = []
     for n, (e, o) in enumerate(zip(case['events'], obs)):
+        if e[0] == 'applyq' and o['ret'] is None and not o['exc']:
+            pending.append(1)
         if e[0] in ('map', 'imap', 'imapu') and o['ret'] is None and not o['exc']:
             if e[0] == 'map':
                 pending.append(0 if e[1] == 0 or e[2] <= 0 else (e[1] + e[2] - 1) // e[2])
@@ -1133,7 +1155,7 @@ def mon_known_C07(case, obs):
 def mon_C07_closed(case, obs):
     out = []
     for n, (e, o) in enumerate(zip(case['events'], obs)):
-        if n and e[0] in ('apply', 'map', 'imap', 'imapu') and obs[n - 1]['state'] != 0:
+        if n and e[0] in ('apply', 'applyq', 'apply_unsendable', 'map', 'imap', 'imapu') and obs[n - 1]['state'] != 0:
             if o['exc'] or o['ret'] not in ('Refused', 'Blocked') or len(o['jobs']) != len(obs[n - 1]['jobs']):
                 out.append(('C07:job-accepted-after-close',
                             '%s offered to a pool in state %d at event %d was not refused (returned %s%s)'
@@ -1166,6 +1188,19 @@ def mon_C01_terminated(case, obs):
     return [('C01:failure-attached-to-other-job', w) for s_, w in mon_C04(case, obs) if s_ == 'C04:terminated-without-terminate-job']
 
 
+def mon_C01_unsent(case, obs):
+    """a job failed because its task could not be sent has left the cache (no worker will ever
+    acknowledge it), and a refused-by-exception apply_async leaves no entry behind"""
+    out = [('C01:unsent-job-never-leaves-cache', w) for s_, w in mon_C10(case, obs) if s_ == 'C10:unsent-job-stays-in-cache']
+    for n, (e, o) in enumerate(zip(case['events'], obs)):
+        if n and e[0] == 'apply_unsendable' and o['ncache'] != obs[n - 1]['ncache']:
+            out.append(('C01:unsent-job-never-leaves-cache',
+                        'apply_async whose write raised at event %d left a cache entry behind (%d -> %d) for a handle the caller never got'
+                        % (n, obs[n - 1]['ncache'], o['ncache'])))
+    return out
+
+
+MONITORS['C01'].append(mon_C01_unsent)
 MONITORS['C01'].append(mon_C01_terminated)
 MONITORS['C01'].append(mon_C01_unresolved)
 MONITORS['C01'].append(mon_C01_feed)
